@@ -613,6 +613,61 @@ pub fn same_operand_cases(full: bool) -> Vec<RsCase> {
     out
 }
 
+/// two operators stacked: every unary operator over every unary operator, every binary operator over a unary one (either
+/// side) and every unary operator over a binary one, over the coercion pool — a rewrite that cancels, merges or reorders
+/// two adjacent operators (`!!x`, `--x`, `!(a < b)`, `-(a - b)`) must keep every type error of the inner application
+pub fn composition_cases() -> Vec<RsCase> {
+    let env = EnvSpec { syms: vec![], fns: vec![] };
+    let mut out = vec![];
+    let others = [Value::Int(1), s("1"), Value::Bool(true), Value::None, Value::Float(1.0)];
+    for v in coercion_pool() {
+        let mut towers = vec![];
+        for o1 in UN_OPS {
+            for o2 in UN_OPS {
+                towers.push(mk_un(o1, mk_un(o2, lit(v.clone()))));
+            }
+        }
+        out.push(RsCase { tag: "compose un-un".into(), rules: towers, facts: Value::None, env: env.clone(), evals: 1 });
+        for w in &others {
+            let mut rules = vec![];
+            for b in BIN_OPS.iter().chain(LAZY_BIN.iter()) {
+                for u in UN_OPS {
+                    rules.push(mk_bin(b, mk_un(u, lit(v.clone())), lit(w.clone())));
+                    rules.push(mk_bin(b, lit(w.clone()), mk_un(u, lit(v.clone()))));
+                    rules.push(mk_un(u, mk_bin(b, lit(v.clone()), lit(w.clone()))));
+                }
+            }
+            out.push(RsCase { tag: "compose un-bin".into(), rules, facts: Value::None, env: env.clone(), evals: 1 });
+        }
+    }
+    out
+}
+
+/// names (of fields, symbols, functions, map keys) that are long and not ASCII, resolving and not resolving: whatever
+/// reports, abridges or indexes a name must cut on character boundaries and must not confuse names that share a prefix
+pub fn long_name_cases() -> Vec<RsCase> {
+    let mut out = vec![];
+    for unit in ["\u{e9}", "\u{65e5}\u{672c}\u{8a9e}", "\u{1f600}", "n\u{e9}\u{65e5}\u{1f600}"] {
+        for target in [30usize, 62, 126, 254, 510, 1022, 4094] {
+            for off in 0..4usize {
+                let name = format!("{}{}", "a".repeat(off), unit.repeat(target / unit.len() + 2));
+                let other = format!("{}x", name);
+                let rules = vec![
+                    reff(&name), Expr::Symbol(name.clone()), call(&name, lit(Value::Int(1))), idxk(reff("facts"), &name), idxk(reff("m"), &name),
+                    reff(&other), Expr::Symbol(other.clone()), call(&other, lit(Value::Int(1))), idxk(reff("m"), &other),
+                    mk_bin("contains", reff("m"), lit(Value::String(name.clone()))), mk_un("toint", lit(Value::String(name.clone()))),
+                ];
+                // nothing resolves
+                out.push(RsCase { tag: "long-names unknown".into(), rules: rules.clone(), facts: map(&[("m", map(&[]))]), env: EnvSpec { syms: vec![], fns: vec![] }, evals: 1 });
+                // `name` resolves everywhere, `other` (one character longer) nowhere
+                let facts = Value::Map([(name.clone(), Value::Int(7)), ("m".to_string(), Value::Map([(name.clone(), Value::Int(8))].into_iter().collect()))].into_iter().collect());
+                out.push(RsCase { tag: "long-names known".into(), rules, facts, env: EnvSpec { syms: vec![(name.clone(), Value::Int(9))], fns: if crate::builder::well_formed(&name) { vec![FnSpec::new(&name, true, FnKind::Id)] } else { vec![] } }, evals: 1 });
+            }
+        }
+    }
+    out
+}
+
 pub fn chain_cases() -> Vec<RsCase> {
     let env = EnvSpec { syms: vec![], fns: vec![] };
     let mut out = vec![];
